@@ -274,6 +274,27 @@ pub fn scenarios(tier: Tier) -> Vec<LinkScenario<fn() -> Box<dyn Probe>>> {
             }
         }
     }
+    // slow links: acknowledgements come back 2.2 - 2.9 s after the packet they acknowledge left (less than 3 s), for
+    // messages submitted at every phase of the second: the first ack that arrives ends the retransmissions
+    for lat in [11u32, 12, 14] {
+        for dir in 0..2usize {
+            if lat != 11 && dir == 1 {
+                continue;
+            }
+            let mut cfg = LinkCfg::base(&format!("link latency {} ticks each way (ack after {} ms), one message per tick for a second, dir{}", lat, (2 * lat + if lat == 14 { 1 } else { 0 }) * 100, dir), chans(), chans());
+            cfg.dt_ms = vec![100];
+            cfg.base_delay_ticks = lat;
+            cfg.horizon = 0;
+            cfg.tail = 80;
+            cfg.drains = vec![Drain::End];
+            cfg.fates = vec![Fate::Ok];
+            cfg.script = (0..10u32).map(|t| Send::at(t, dir, (t % 2) as u8, 1 + t as usize)).collect();
+            out.push(LinkScenario {
+                cfg,
+                probe: (|| Box::new(TimingProbe::new()) as Box<dyn Probe>) as fn() -> Box<dyn Probe>,
+            });
+        }
+    }
     // long silence: the sent-packet horizon (3 s) expires before the delayed ack arrives
     for dir in 0..2usize {
         let mut cfg = LinkCfg::base(&format!("3.1s silence script 1+2401 dir{}", dir), chans(), chans());
